@@ -43,6 +43,7 @@ from mashumaro.core.meta.helpers import (
     is_readonly,
     is_required,
     is_special_typing_primitive,
+    is_type_alias_type,
     is_type_var,
     is_type_var_any,
     is_type_var_tuple,
@@ -469,6 +470,8 @@ def on_special_typing_primitive(
         return get_schema(instance.derive(type=tuple[Any, ...]), ctx)
     elif is_readonly(instance.type):
         return get_schema(instance.derive(type=args[0]), ctx)
+    elif is_type_alias_type(instance.type):
+        return get_schema(instance.derive(type=instance.type.__value__), ctx)
     elif isinstance(instance.type, ForwardRef):
         evaluated = evaluate_forward_ref(
             instance.type,
